@@ -521,10 +521,51 @@ theorem range_not_set_when_few (f : Peer → Nat) (nonFull full : Nat) (table : 
         omega
       simp [hl]
 
+/-- the range IS set as soon as the estimate exceeds `CLOSE_GROUP_SIZE` and at least `CLOSE_GROUP_SIZE + 2` peers are known -/
+theorem range_set_when_enough (f : Peer → Nat) (nonFull full : Nat) (table : List Peer)
+    (hest : closeGroupSize < estimateNetworkSize nonFull full) (hlen : closeGroupSize + 2 ≤ table.length) :
+    ∃ b, deriveRange f nonFull full table = some b := by
+  have hk : (closestKSelfInclusive table).length = min kValue (table.length + 1) := by
+    unfold closestKSelfInclusive
+    rw [List.length_take, List.length_cons, (sort_perm table).length_eq]
+  have h20 : kValue = 20 := rfl
+  have h5 : closeGroupSize = 5 := rfl
+  have hlt : rangeNeighbourIndex < (closestKSelfInclusive table).length := by
+    rw [hk, h20]; simp only [rangeNeighbourIndex]; omega
+  unfold deriveRange
+  simp only
+  have h1 : ¬ estimateNetworkSize nonFull full ≤ rangeMinEstimateExclusive := by
+    simp only [rangeMinEstimateExclusive]; omega
+  have h2 : ¬ (closestKSelfInclusive table).length ≤ rangeMinListLenExclusive := by
+    rw [hk, h20]; simp only [rangeMinListLenExclusive]; omega
+  simp only [h1, h2, ↓reduceIte]
+  rw [List.getElem?_eq_getElem hlt]
+  exact ⟨_, rfl⟩
+
+/-- With the distances of the table being the XOR distances of the peers' addresses to the node (`hcons`: what
+`get_closest_local_peers` sorts by), the range that is set covers the node's whole close group: every one of its
+`CLOSE_GROUP_SIZE` nearest routing-table peers is at an XOR distance within the bound. -/
+theorem range_covers_close_group (self : Addr) (addrOf : Peer → Addr) (nonFull full : Nat) (table : List Peer) (b : Nat)
+    (hcons : ∀ p ∈ table, p.2 = xorDist self (addrOf p))
+    (h : deriveRange (fun p => convDist self (addrOf p)) nonFull full table = some b) :
+    ∀ q ∈ (sortByDist table).take closeGroupSize, xorDist self (addrOf q) ≤ b := by
+  obtain ⟨p, hp, _, hle, _, _⟩ := range_is_distance_to_kth self addrOf nonFull full table b h
+  obtain ⟨hpm, _, hnear⟩ := range_neighbour_is_kth_nearest table p hp
+  intro q hq
+  have hqm : q ∈ table := (sort_perm table).mem_iff.1 (List.mem_of_mem_take hq)
+  have := hnear q hq
+  rw [hcons q hqm, hcons p hpm] at this
+  omega
+
+/-- non-vacuity: an 8-peer table with an estimate of 9 gets a range -/
+example : ∃ b, deriveRange (fun p => p.2) 8 0 ((List.range 8).map (fun i => (i + 1, i + 10))) = some b :=
+  range_set_when_enough _ 8 0 _ (by decide) (by simp [closeGroupSize])
+
 /-! ## The storage challenge orders held records exactly as the XOR integer orders them -/
 
-/-- the responder answers for the `min(difficulty, CLOSE_GROUP_SIZE)` held chunks nearest the key, ascending, and every
-held chunk left out is at least as far from the key as every one answered for -/
+/-- the `difficulty ≠ 1` branch of the responder (`respondClosest`; the code as a whole, with its `difficulty == 1`
+branch, is `challenge_response_spec`): it answers for the `min(difficulty, CLOSE_GROUP_SIZE)` held chunks nearest the
+key, ascending, and every held chunk left out is at least as far from the key as every one answered for -/
 theorem challenge_response_is_nearest (held : List Peer) (difficulty : Nat) :
     (respondClosest held difficulty).length = min (min difficulty closeGroupSize) held.length ∧
     (respondClosest held difficulty).Pairwise (fun a b => a.2 ≤ b.2) ∧
@@ -540,6 +581,25 @@ theorem challenge_response_is_nearest (held : List Peer) (difficulty : Nat) :
   · intro x hx y hy
     rw [← List.take_append_drop (min difficulty closeGroupSize) (sortByDist held), List.pairwise_append] at hs
     exact hs.2.2 x hx y hy
+
+/-- `respond_x_closest_record_proof` as a whole: with `difficulty = 1` it answers for the key itself only (found iff the
+key is one of the held chunks; no closeness decision is made); with every other difficulty it answers for exactly the
+`respondClosest` chunks of `challenge_response_is_nearest`. -/
+theorem challenge_response_spec (held : List Peer) (keyId : Option Nat) (difficulty : Nat) :
+    (difficulty = 1 → respondProof held keyId difficulty = .single (held.any (fun p => some p.1 == keyId))) ∧
+    (difficulty ≠ 1 → respondProof held keyId difficulty = .nearest (respondClosest held difficulty) ∧
+      (respondClosest held difficulty).length = min (min difficulty closeGroupSize) held.length ∧
+      (respondClosest held difficulty).Pairwise (fun a b => a.2 ≤ b.2) ∧
+      ∀ x ∈ respondClosest held difficulty, ∀ y ∈ (sortByDist held).drop (min difficulty closeGroupSize), x.2 ≤ y.2) := by
+  constructor
+  · intro h; simp [respondProof, h]
+  · intro h
+    obtain ⟨h1, h2, _, h4⟩ := challenge_response_is_nearest held difficulty
+    exact ⟨by simp [respondProof, h], h1, h2, h4⟩
+
+/-- the `difficulty = 1` branch does NOT return the nearest held chunk: two chunks held, neither is the key -/
+example : respondProof [(1, 9), (2, 3)] (some 7) 1 = .single false := by decide
+example : respondProof [(1, 9), (2, 3)] (some 2) 1 = .single true := by decide
 
 /-- the challenger's target is one of the nearer half of its own chunks (by XOR distance to itself), and what it expects
 to be answered are the `CLOSE_GROUP_SIZE` held chunks nearest that target, ascending -/
@@ -602,6 +662,38 @@ theorem challenged_are_four_nearest (table : List Peer) (hid : ∀ p ∈ table, 
     rw [← h]
     simp only [List.length_cons, List.length_take] at hlen ⊢
     omega
+
+/-- the challenger has something to check as soon as it holds 50 chunks (any index in the nearer half) … -/
+theorem challenge_targets_exist (bySelf : List Peer) (index : Nat) (toTarget : Nat → Nat → Nat)
+    (hn : 50 ≤ bySelf.length) (hi : index < bySelf.length / 2) :
+    ∃ t exp, challengeTargets bySelf index toTarget = some (t, exp) := by
+  unfold challengeTargets
+  have h1 : ¬ bySelf.length < challengeMinCandidates := by simp only [challengeMinCandidates]; omega
+  have h2 : ¬ index ≥ bySelf.length / 2 := by omega
+  have hlt : index < (sortByDist bySelf).length := by rw [(sort_perm bySelf).length_eq]; omega
+  simp only [h1, h2, ↓reduceIte]
+  rw [List.getElem?_eq_getElem hlt]
+  exact ⟨_, _, rfl⟩
+
+/-- … and somebody to challenge as soon as it knows 4 peers -/
+theorem challenged_peers_exist (table : List Peer) (hn : closeGroupSize - 1 ≤ table.length) :
+    ∃ r, challengedPeers table = some r := by
+  unfold challengedPeers
+  simp only
+  have h5 : challengePeersTaken = 5 := rfl
+  have h20 : kValue = 20 := rfl
+  have h4 : closeGroupSize - 1 = 4 := rfl
+  have hl : ¬ ((closestKSelfInclusive table).take challengePeersTaken).length < challengePeersTaken := by
+    unfold closestKSelfInclusive
+    rw [List.length_take, List.length_take, List.length_cons, (sort_perm table).length_eq, h5, h20]
+    omega
+  simp only [hl, ↓reduceIte]
+  exact ⟨_, rfl⟩
+
+example : ∃ t exp, challengeTargets ((List.range 50).map (fun i => (i + 1, i + 10))) 3 (fun t c => t + c) = some (t, exp) :=
+  challenge_targets_exist _ 3 _ (by simp) (by simp)
+example : ∃ r, challengedPeers ((List.range 8).map (fun i => (i + 1, i + 10))) = some r :=
+  challenged_peers_exist _ (by simp [closeGroupSize])
 
 /-! ## Replication candidates over the nearest-first K list -/
 
@@ -758,6 +850,11 @@ end SafeNet.Props.C11
 #print axioms SafeNet.Props.C11.range_neighbour_is_kth_nearest
 #print axioms SafeNet.Props.C11.range_not_set_when_few
 #print axioms SafeNet.Props.C11.challenge_response_is_nearest
+#print axioms SafeNet.Props.C11.challenge_response_spec
+#print axioms SafeNet.Props.C11.range_set_when_enough
+#print axioms SafeNet.Props.C11.range_covers_close_group
+#print axioms SafeNet.Props.C11.challenge_targets_exist
+#print axioms SafeNet.Props.C11.challenged_peers_exist
 #print axioms SafeNet.Props.C11.challenge_targets_spec
 #print axioms SafeNet.Props.C11.challenged_are_four_nearest
 #print axioms SafeNet.Props.C11.record_selection_is_by_xor_distance
